@@ -4,7 +4,7 @@ from fractions import Fraction
 import numpy as np
 import scipy.sparse as sps
 
-from harness.core import Prop, cnat, clist, cbool
+from harness.core import Prop, cnat, clist, cbool, cz, coption
 
 import porepy as pp
 from porepy.numerics.ad.operators import Operations
@@ -18,28 +18,53 @@ KNOWN_NDARRAY = "left-operand-is-numpy-array"
 # --------------------------------------------------------------------------------------
 # the equation system (built once; values are reset for every case)
 # --------------------------------------------------------------------------------------
-_ENV = {}
+_ENVS = {}
+NENV = 3
+DOMSIZE = {"sd0": 4, "sd1": 2, "intf": 4}
+#: positions of the time-dependent array "src" (stored per subdomain, md-grid order)
+SRCPOS = {"sd0": [0, 1, 2, 3], "sd1": [4, 5]}
+NTS = 4          # stored time-step indices 0..3 and iterate indices 0..3
 
 
-def env():
-    if not _ENV:
+def env(v=0):
+    """Equation systems on a fractured 2-d md-grid (matrix sd0: 4 cells, fracture sd1: 2 cells,
+    interface: 4 cells), differing in the ORDER in which the variables are created."""
+    if v not in _ENVS:
         mdg, _ = pp.mdg_library.square_with_orthogonal_fractures(
             "cartesian", {"cell_size": 0.5}, [1])
         es = pp.ad.EquationSystem(mdg)
         sds = mdg.subdomains()
-        es.create_variables("x", subdomains=sds)
-        es.create_variables("y", subdomains=sds)
-        es.create_variables("lam", interfaces=mdg.interfaces())
-        _ENV.update(mdg=mdg, es=es, sds=sds, N=es.num_dofs())
-    return _ENV
+        intfs = mdg.interfaces()
+        if v == 0:      # md-grid order
+            es.create_variables("x", subdomains=sds)
+            es.create_variables("y", subdomains=sds)
+            es.create_variables("lam", interfaces=intfs)
+        elif v == 1:    # fracture before matrix, interface variable interleaved
+            es.create_variables("x", subdomains=[sds[1]])
+            es.create_variables("lam", interfaces=intfs)
+            es.create_variables("y", subdomains=[sds[1], sds[0]])
+            es.create_variables("x", subdomains=[sds[0]])
+        else:           # interface first, names interleaved
+            es.create_variables("lam", interfaces=intfs)
+            es.create_variables("y", subdomains=[sds[0]])
+            es.create_variables("x", subdomains=[sds[1], sds[0]])
+            es.create_variables("y", subdomains=[sds[1]])
+        grids = {"sd0": sds[0], "sd1": sds[1], "intf": intfs[0]}
+        key_of = {id(g): k for k, g in grids.items()}
+        atoms = {(var.name, key_of[id(var.domain)]): var for var in es.variables}
+        blocks = {k: [int(i) for i in es.dofs_of([var])] for k, var in atoms.items()}
+        _ENVS[v] = dict(mdg=mdg, es=es, sds=sds, intfs=intfs, N=es.num_dofs(), grids=grids,
+                        key_of=key_of, atoms=atoms, blocks=blocks)
+    return _ENVS[v]
 
 
-#: vector-valued leaves by size: (kind, name, which domains)
-def leaf_menu():
-    return {6: [("var", "x", "all"), ("var", "y", "all"), ("tdda", "src", "all")],
-            4: [("var", "x", "sd0"), ("var", "y", "sd0"), ("var", "lam", "intf"),
-                ("tdda", "src", "sd0")],
-            2: [("var", "x", "sd1"), ("var", "y", "sd1"), ("tdda", "src", "sd1")]}
+#: vector-valued variable leaves by size: (name, list of domains); the list order is free
+def var_menu(n):
+    if n == 6:
+        return [(nm, d) for nm in ("x", "y") for d in (["sd0", "sd1"], ["sd1", "sd0"])]
+    if n == 4:
+        return [("x", ["sd0"]), ("y", ["sd0"]), ("lam", ["intf"])]
+    return [("x", ["sd1"]), ("y", ["sd1"])]
 
 
 def q(x):
@@ -68,48 +93,59 @@ def cnl(l):
 # --------------------------------------------------------------------------------------
 class Builder:
     def __init__(self, case):
-        E = env()
+        E = env(case.get("env", 0))
         self.E = E
-        es, mdg, sds = E["es"], E["mdg"], E["sds"]
-        N = E["N"]
+        es, mdg = E["es"], E["mdg"]
         st = case["state"]
-        es.set_variable_values(np.array(st["it0"], dtype=float), iterate_index=0)
-        es.set_variable_values(np.array(st["it1"], dtype=float), iterate_index=1)
-        es.set_variable_values(np.array(st["it2"], dtype=float), iterate_index=2)
-        es.set_variable_values(np.array(st["ts0"], dtype=float), time_step_index=0)
-        es.set_variable_values(np.array(st["ts1"], dtype=float), time_step_index=1)
+        for k in range(NTS):
+            es.set_variable_values(np.array(st["it%d" % k], dtype=float), iterate_index=k)
+            es.set_variable_values(np.array(st["ts%d" % k], dtype=float), time_step_index=k)
         off = 0
         for sd, d in mdg.subdomains(return_data=True):
             n = sd.num_cells
-            for key, kw in (("src_it0", {"iterate_index": 0}), ("src_ts0", {"time_step_index": 0}),
-                            ("src_ts1", {"time_step_index": 1})):
-                pp.set_solution_values("src", np.array(st[key][off:off + n], dtype=float), d, **kw)
+            pp.set_solution_values("src", np.array(st["src_it0"][off:off + n], dtype=float), d,
+                                   iterate_index=0)
+            for k in range(NTS):
+                pp.set_solution_values("src", np.array(st["src_ts%d" % k][off:off + n], dtype=float),
+                                       d, time_step_index=k)
             off += n
+        #: log of previous_timestep / previous_iteration calls on composite operators
+        self.shifts = []
 
-    def domains(self, which):
-        sds = self.E["sds"]
-        return {"all": sds, "sd0": [sds[0]], "sd1": [sds[1]]}.get(which)
+    def shifted(self, s, op, log):
+        for key, ptime in (("t", True), ("i", False)):
+            steps = s.get(key, 0)
+            if not steps:
+                continue
+            inner = ser(op, self.E) if log else None
+            try:
+                op = (op.previous_timestep(steps=steps) if ptime
+                      else op.previous_iteration(steps=steps))
+            except ValueError:
+                if log:
+                    self.shifts.append([inner, ptime, steps, None])
+                raise
+            if log:
+                self.shifts.append([inner, ptime, steps, ser(op, self.E)])
+        return op
 
     def build(self, s):
         k = s["k"]
-        es = self.E["es"]
+        E = self.E
+        es = E["es"]
         if k == "var":
-            if s["dom"] == "intf":
-                v = es.md_variable(s["name"], self.E["mdg"].interfaces())
+            doms = s["doms"]
+            mode = s.get("mode", "md")
+            if mode == "atomic":
+                v = E["atoms"][(s["name"], doms[0])]
+            elif mode == "list":       # md-variable from an explicitly ordered list
+                v = pp.ad.MixedDimensionalVariable([E["atoms"][(s["name"], d)] for d in doms])
             else:
-                v = es.md_variable(s["name"], self.domains(s["dom"]))
-            if s.get("atomic") and len(v.sub_vars) == 1:
-                v = v.sub_vars[0]
-            if s.get("t", 0):
-                v = v.previous_timestep(steps=s["t"])
-            if s.get("i", 0):
-                v = v.previous_iteration(steps=s["i"])
-            return v
+                v = es.md_variable(s["name"], [E["grids"][d] for d in doms])
+            return self.shifted(s, v, False)
         if k == "tdda":
-            a = pp.ad.TimeDependentDenseArray("src", self.domains(s["dom"]))
-            if s.get("t", 0):
-                a = a.previous_timestep(steps=s["t"])
-            return a
+            a = pp.ad.TimeDependentDenseArray("src", [E["grids"][d] for d in s["doms"]])
+            return self.shifted(s, a, False)
         if k == "scalar":
             return pp.ad.Scalar(s["v"])
         if k == "dense":
@@ -132,10 +168,18 @@ class Builder:
             return PYOP[s["op"]](self.build(s["a"]), self.build(s["b"]))
         if k == "neg":
             return -self.build(s["a"])
+        if k == "prev":         # previous_timestep / previous_iteration of a whole expression
+            return self.shifted(s, self.build(s["a"]), True)
         if k == "rnode":        # a reverse-operation node as the overloads built before the repair
             a, b = self.build(s["a"]), self.build(s["b"])
             return pp.ad.Operator(children=[a, b], operation=Operations(s["op"]))
         raise ValueError(k)
+
+    def sub_order(self, s):
+        """(name, domain) of the sub-variables of the real (unshifted) variable of a var spec"""
+        v = self.build({kk: vv for kk, vv in s.items() if kk not in ("t", "i")})
+        subs = v.sub_vars if isinstance(v, pp.ad.MixedDimensionalVariable) else [v]
+        return [(sv.name, self.E["key_of"][id(sv.domain)]) for sv in subs]
 
 
 # --------------------------------------------------------------------------------------
@@ -157,45 +201,19 @@ def ser(op, E):
     if isinstance(op, A.ProjectionList):
         return ["projlist", [ser_slicer(c._slicer) for c in op.children]]
     if isinstance(op, A.TimeDependentDenseArray):
-        vals = []
-        kw = ({"time_step_index": op.time_step_index} if op.is_previous_time
-              else {"iterate_index": 0})
-        for g in op.domains:
-            vals += list(pp.get_solution_values("src", E["mdg"].subdomain_data(g), **kw))
-        offs = {id(sd): o for sd, o in zip(E["sds"], (0, E["sds"][0].num_cells))}
-        dofs = [offs[id(g)] + i for g in op.domains for i in range(g.num_cells)]
-        loc = "src_ts%d" % op.time_step_index if op.is_previous_time else "src_it0"
-        return ["stored", [q(x) for x in vals], {"loc": loc, "dofs": dofs}]
+        pos = [p for g in op.domains for p in SRCPOS[E["key_of"][id(g)]]]
+        return ["tdda", pos, int(op._time_step_index)]
     if isinstance(op, A.Variable):
-        if op.is_previous_time or op.is_previous_iterate:
-            subs = op.sub_vars if isinstance(op, A.MixedDimensionalVariable) else [op]
-            vals = []
-            for sv in subs:
-                g = sv.domain
-                d = (E["mdg"].subdomain_data(g) if isinstance(g, pp.Grid)
-                     else E["mdg"].interface_data(g))
-                vals += list(pp.get_solution_values(sv.name, d, iterate_index=sv.iterate_index,
-                                                    time_step_index=sv.time_step_index))
-            loc = ("ts%d" % op.time_step_index if op.is_previous_time
-                   else "it%d" % op.iterate_index)
-            return ["stored", [q(x) for x in vals],
-                    {"loc": loc, "dofs": [int(i) for i in es.dofs_of([op])]}]
-        return ["var", [int(i) for i in es.dofs_of([op])]]
+        subs = op.sub_vars if isinstance(op, A.MixedDimensionalVariable) else [op]
+        # the dofs in the order of the sub-variables (what the parser walks for stored values)
+        dofs = [int(i) for sv in subs for i in es.dofs_of([sv])]
+        if not (op.is_previous_time or op.is_previous_iterate):
+            # the current state is indexed with dofs_of([op])
+            assert dofs == [int(i) for i in es.dofs_of([op])]
+        return ["var", dofs, int(op._time_step_index), int(op._iterate_index)]
     if type(op) is A.Operator and len(op.children) == 2 and op.operation.value in OPS:
         return ["bin", op.operation.value, ser(op.children[0], E), ser(op.children[1], E)]
     raise ValueError(f"operator outside the modelled classes: {type(op).__name__} {op.operation}")
-
-
-def check_stored(t, st):
-    """leaves at a previous time step / iterate hold the values stored at that index"""
-    if t[0] == "bin":
-        return check_stored(t[2], st) or check_stored(t[3], st)
-    if t[0] == "stored":
-        meta = t[2]
-        exp = [q(st[meta["loc"]][i]) for i in meta["dofs"]]
-        if exp != list(t[1]):
-            return f"leaf at {meta['loc']} does not evaluate to the stored values"
-    return None
 
 
 def ser_slicer(sl):
@@ -220,10 +238,10 @@ def ctree(t):
         return f"(Leaf (LProj {cslicer(t[1])}))"
     if k == "projlist":
         return f"(Leaf (LProjList {clist(t[1], cslicer)}))"
-    if k == "stored":
-        return f"(Leaf (LStored {cvec(t[1])}))"
+    if k == "tdda":
+        return f"(Leaf (LTdda {cnl(t[1])} {cz(t[2])}))"
     if k == "var":
-        return f"(Leaf (LVar {cnl(t[1])}))"
+        return f"(Leaf (LVar {cnl(t[1])} {cz(t[2])} {cz(t[3])}))"
     if k == "bin":
         return f"(Bin {OPS[t[1]]} {ctree(t[2])} {ctree(t[3])})"
     raise ValueError(k)
@@ -252,29 +270,58 @@ class Unsupported(Exception):
     pass
 
 
-def o_eval(t, state, N):
-    """-> ('num', q) | ('vec', vals, jac) | ('mat', rows, ncols) | ('sl', slicer) | ('sll', [..])"""
-    k = t[0]
-    if k == "scalar":
-        return ("num", t[1])
-    if k == "dense":
-        return ("vec", list(t[1]), [[q(0)] * N for _ in t[1]])
-    if k == "stored":
-        return ("vec", list(t[1]), [[q(0)] * N for _ in t[1]])
-    if k == "var":
-        return ("vec", [state[i] for i in t[1]],
-                [[q(1) if c == i else q(0) for c in range(N)] for i in t[1]])
-    if k == "sparse":
-        return ("mat", [list(r) for r in t[2]], t[1])
+class ExpectKeyError(Exception):
+    pass
+
+
+def s_eval(s, ctx, dt=0, di=0):
+    """Exact evaluation of the SPEC (not of the tree the implementation built), with dual
+    numbers over Fractions.  [dt], [di]: time / iterate steps accumulated from enclosing
+    previous_timestep / previous_iteration calls: a shift of an expression shifts every
+    time-dependent (iterative) leaf by that many more steps.
+    -> ('num', q) | ('vec', vals, jac) | ('mat', rows, ncols) | ('sl', slicer) | ('sll', [..])"""
+    N, st = ctx["N"], ctx["state"]
+    k = s["k"]
+    zero = lambda n: [[q(0)] * N for _ in range(n)]
+    if k in ("scalar", "num"):
+        return ("num", q(s["v"]))
+    if k in ("dense", "arr"):
+        return ("vec", [q(x) for x in s["v"]], zero(len(s["v"])))
+    if k in ("sparse", "spm"):
+        m = s["m"]
+        return ("mat", [[q(x) for x in r] for r in m], len(m[0]))
     if k == "proj":
-        return ("sl", t[1])
+        return ("sl", [s["dom"], s["rng"], s["rs"], s["ds"]])
     if k == "projlist":
-        return ("sll", t[1])
-    op = t[1]
-    a, b = o_eval(t[2], state, N), o_eval(t[3], state, N)
-    if op in ("rmul", "rdiv", "rpow", "rmatmul"):       # [self, other] means other <op> self
-        op, a, b = op[1:], b, a
-    return o_op(op, a, b, N)
+        return ("sll", [[p["dom"], p["rng"], p["rs"], p["ds"]] for p in s["ps"]])
+    if k == "var":
+        # dofs in the order of the sub-variables of the real md-variable (the order in which it
+        # is evaluated at the current state), from the per-variable dof blocks
+        dofs = [i for key in ctx["sub_order"](s) for i in ctx["blocks"][key]]
+        t, i = s.get("t", 0) + dt, s.get("i", 0) + di
+        assert not (t and i)
+        if t or i:
+            idx = (t or i) - 1
+            if idx >= NTS:
+                raise ExpectKeyError()
+            src = st[("ts%d" if t else "it%d") % idx]
+            return ("vec", [q(src[j]) for j in dofs], zero(len(dofs)))
+        return ("vec", [q(st["it0"][j]) for j in dofs],
+                [[q(1) if c == j else q(0) for c in range(N)] for j in dofs])
+    if k == "tdda":
+        pos = [p_ for d in s["doms"] for p_ in SRCPOS[d]]
+        t = s.get("t", 0) + dt        # an iterate shift does not touch a time-dependent array
+        if t - 1 >= NTS:
+            raise ExpectKeyError()
+        src = st["src_ts%d" % (t - 1)] if t else st["src_it0"]
+        return ("vec", [q(src[j]) for j in pos], zero(len(pos)))
+    if k == "prev":
+        return s_eval(s["a"], ctx, dt + s.get("t", 0), di + s.get("i", 0))
+    if k == "neg":
+        return o_op("mul", ("num", q(-1)), s_eval(s["a"], ctx, dt, di), N)
+    if k == "bin":
+        return o_op(s["op"], s_eval(s["a"], ctx, dt, di), s_eval(s["b"], ctx, dt, di), N)
+    raise Unsupported(k)
 
 
 def o_slice(s, x, N):
@@ -382,13 +429,19 @@ def o_op(op, a, b, N):
 # second oracle: the same expression directly on real AdArrays (where python's own
 # evaluation is well defined, i.e. no numpy array directly to the left of an AdArray)
 # --------------------------------------------------------------------------------------
-def d_eval(t, ad_state):
+def d_eval(t, ad_state, st=None):
     k = t[0]
     if k == "scalar":
         return float(t[1])
-    if k in ("dense", "stored"):
+    if k == "dense":
         return np.array([float(x) for x in t[1]])
+    if k == "tdda":
+        src = st["src_ts%d" % t[2]] if t[2] >= 0 else st["src_it0"]
+        return np.array([float(src[j]) for j in t[1]])
     if k == "var":
+        if t[2] >= 0 or t[3] >= 0:
+            src = st["ts%d" % t[2]] if t[2] >= 0 else st["it%d" % t[3]]
+            return np.array([float(src[j]) for j in t[1]])
         return ad_state[np.array(t[1], dtype=int)]
     if k == "sparse":
         return sps.csr_matrix(np.array([[float(x) for x in r] for r in t[2]]).reshape(
@@ -400,7 +453,7 @@ def d_eval(t, ad_state):
     if k == "projlist":
         return [d_eval(["proj", s], ad_state) for s in t[1]]
     op = t[1]
-    a, b = d_eval(t[2], ad_state), d_eval(t[3], ad_state)
+    a, b = d_eval(t[2], ad_state, st), d_eval(t[3], ad_state, st)
     if op.startswith("r"):
         op, a, b = op[1:], b, a
     if a is None or b is None:
@@ -427,24 +480,47 @@ def gen_num(rng):
     return rng.choice([2, 0.5, -1, 3, 1.5, -2, 0.25])
 
 
-def gen_leaf_vec(rng, n, allow_raw):
+def gen_shift(rng, s, mode, budget, is_var):
+    """give a time-dependent leaf a shift compatible with the enclosing shifts"""
+    if budget < 1:
+        return s
+    r = rng.random()
+    steps = rng.randint(1, min(2, budget))
+    if mode == "any":
+        if r < 0.3:
+            s["t"] = steps
+        elif r < 0.6 and is_var:
+            s["i"] = steps
+    elif mode == "time" or not is_var:
+        if r < 0.55:
+            s["t"] = steps
+    elif r < 0.55:
+        s["i"] = steps
+    return s
+
+
+def gen_var(rng, n, mode="any", budget=4):
+    name, doms = rng.choice(var_menu(n))
+    s = {"k": "var", "name": name, "doms": list(doms)}
+    r = rng.random()
+    if len(doms) == 1 and name != "lam" and r < 0.4:
+        s["mode"] = "atomic"
+    elif r < 0.75 and name != "lam":
+        s["mode"] = "list"       # explicitly ordered (possibly permuted) sub-variable list
+    return gen_shift(rng, s, mode, budget, True)
+
+
+def gen_tdda(rng, n, mode="any", budget=4):
+    doms = {6: rng.choice([["sd0", "sd1"], ["sd1", "sd0"]]), 4: ["sd0"], 2: ["sd1"]}[n]
+    return gen_shift(rng, {"k": "tdda", "doms": doms}, mode, budget, False)
+
+
+def gen_leaf_vec(rng, n, allow_raw, mode="any", budget=4):
     r = rng.random()
     if r < 0.55:
-        kind, name, dom = rng.choice([m for m in leaf_menu()[n] if m[0] == "var"])
-        s = {"k": "var", "name": name, "dom": dom}
-        sh = rng.random()
-        if sh < 0.2:
-            s["t"] = rng.choice([1, 2])
-        elif sh < 0.4:
-            s["i"] = rng.choice([1, 2, 3])
-        if dom in ("sd0", "sd1") and rng.random() < 0.4:
-            s["atomic"] = True
-        return s
+        return gen_var(rng, n, mode, budget)
     if r < 0.68:
-        s = {"k": "tdda", "dom": {6: "all", 4: "sd0", 2: "sd1"}[n]}
-        if rng.random() < 0.5:
-            s["t"] = rng.choice([1, 2])
-        return s
+        return gen_tdda(rng, n, mode, budget)
     if r < 0.9 or not allow_raw:
         return {"k": "dense", "v": rvals(rng, n)}
     return {"k": "arr", "v": rvals(rng, n)}
@@ -466,12 +542,19 @@ def is_raw(s):
     return s["k"] in ("num", "arr", "spm")
 
 
-def gen_vec(rng, n, depth):
-    """expression evaluating to a vector of length n"""
+def gen_vec(rng, n, depth, mode="any", budget=4):
+    """expression evaluating to a vector of length n; [mode]/[budget]: kind and number of steps
+    of shifts that leaves may still take (inside previous_timestep / previous_iteration of a
+    composite expression only shifts of the same kind are legal)"""
+    if depth >= 1 and budget >= 1 and rng.random() < 0.14:
+        kind = rng.choice(["time", "iter"]) if mode == "any" else mode
+        steps = rng.randint(1, min(2, budget))
+        child = gen_vec(rng, n, depth - 1, kind, budget - steps)
+        return {"k": "prev", ("t" if kind == "time" else "i"): steps, "a": child}
     if depth == 0 or rng.random() < 0.2:
-        return gen_leaf_vec(rng, n, False)
+        return gen_leaf_vec(rng, n, False, mode, budget)
     r = rng.random()
-    sub = lambda: gen_vec(rng, n, depth - 1)
+    sub = lambda: gen_vec(rng, n, depth - 1, mode, budget)
     if r < 0.36:
         op = rng.choice(["add", "sub", "mul"])
         a, b = sub(), sub()
@@ -493,7 +576,7 @@ def gen_vec(rng, n, depth):
             num = ({"k": "num", "v": gen_num(rng)} if rng.random() < 0.5
                    else {"k": "scalar", "v": gen_num(rng)})
             return {"k": "bin", "op": "div", "a": sub(), "b": num}
-        leaf = gen_leaf_vec(rng, n, False)
+        leaf = gen_leaf_vec(rng, n, False, mode, budget)
         top = rng.random()
         if top < 0.35:
             a = {"k": "num", "v": gen_num(rng)}
@@ -508,7 +591,7 @@ def gen_vec(rng, n, depth):
         e = rng.choice([2, 2, 3, 1])
         base = sub()
         if rng.random() < 0.3:   # exponents < 1 only on (non-zero) leaves: no division by zero
-            e, base = rng.choice([-1, -2, 0]), gen_leaf_vec(rng, n, False)
+            e, base = rng.choice([-1, -2, 0]), gen_leaf_vec(rng, n, False, mode, budget)
         ex = {"k": "num", "v": e} if rng.random() < 0.6 else {"k": "scalar", "v": e}
         return {"k": "bin", "op": "pow", "a": base, "b": ex}
     if r < 0.88:                     # matrix @ vector
@@ -523,14 +606,14 @@ def gen_vec(rng, n, depth):
             mid = rng.choice([2, 3])
             mat = {"k": "bin", "op": "matmul", "a": gen_mat(rng, n, mid, False),
                    "b": gen_mat(rng, mid, m, False)}
-        return {"k": "bin", "op": "matmul", "a": mat, "b": gen_vec(rng, m, depth - 1)}
+        return {"k": "bin", "op": "matmul", "a": mat, "b": gen_vec(rng, m, depth - 1, mode, budget)}
     if r < 0.96:                     # projection @ vector / scalar broadcast
         m = rng.choice([2, 4, 6])
         if rng.random() < 0.3:
             P = {"k": "projlist", "ps": [gen_proj(rng, m, n) for _ in range(rng.randint(1, 3))]}
         else:
             P = gen_proj(rng, m, n)
-        x = gen_vec(rng, m, depth - 1) if rng.random() < 0.85 else {"k": "scalar", "v": gen_num(rng)}
+        x = gen_vec(rng, m, depth - 1, mode, budget) if rng.random() < 0.85 else {"k": "scalar", "v": gen_num(rng)}
         return {"k": "bin", "op": "matmul", "a": P, "b": x}
     return {"k": "neg", "a": sub()}
 
@@ -543,7 +626,7 @@ def fix_raw(s):
             b = s["b"]
             s["b"] = ({"k": "scalar", "v": b["v"]} if b["k"] == "num" else
                       {"k": "dense", "v": b["v"]} if b["k"] == "arr" else {"k": "sparse", "m": b["m"]})
-    elif s["k"] == "neg":
+    elif s["k"] in ("neg", "prev"):
         s["a"] = fix_raw(s["a"])
         if is_raw(s["a"]):
             a = s["a"]
@@ -554,7 +637,7 @@ def fix_raw(s):
 def has_ndarray_left(s):
     if s["k"] == "bin":
         return s["a"]["k"] == "arr" or has_ndarray_left(s["a"]) or has_ndarray_left(s["b"])
-    if s["k"] == "neg":
+    if s["k"] in ("neg", "prev"):
         return has_ndarray_left(s["a"])
     return False
 
@@ -562,15 +645,30 @@ def has_ndarray_left(s):
 def has_raw_left(s):
     if s["k"] == "bin":
         return is_raw(s["a"]) or has_raw_left(s["a"]) or has_raw_left(s["b"])
-    if s["k"] in ("neg",):
+    if s["k"] in ("neg", "prev"):
         return has_raw_left(s["a"])
     return False
 
 
+POOL = [sg * Fraction(16 + k, 32) for k in range(80) for sg in (1, -1)]
+
+
 def gen_state(rng, N):
-    return {"it0": rvals(rng, N), "it1": rvals(rng, N), "it2": rvals(rng, N),
-            "ts0": rvals(rng, N), "ts1": rvals(rng, N),
-            "src_it0": rvals(rng, 6), "src_ts0": rvals(rng, 6), "src_ts1": rvals(rng, 6)}
+    """DISTINCT non-zero values for every dof and every stored index, so that a value read
+    from the wrong dof or the wrong time step / iterate is visible"""
+    keys = ([("it%d" % k, N) for k in range(NTS)] + [("ts%d" % k, N) for k in range(NTS)]
+            + [("src_it0", 6)] + [("src_ts%d" % k, 6) for k in range(NTS)])
+    vals = rng.sample(POOL, sum(n for _, n in keys))
+    st, off = {}, 0
+    for key, n in keys:
+        st[key] = [float(x) for x in vals[off:off + n]]
+        off += n
+    return st
+
+
+def has_prev(s):
+    return s["k"] == "prev" or any(has_prev(c) for c in (s.get("a"), s.get("b"))
+                                   if isinstance(c, dict))
 
 
 def tnodes(t):
@@ -592,7 +690,7 @@ def tcensus(t, out):
 class C02(Prop):
     id = "C02"
     props_file = "Props/C02.v"
-    preamble = ("From Coq Require Import List ZArith QArith Qcanon.\nImport ListNotations.\n"
+    preamble = ("From Coq Require Import List ZArith QArith Qcanon Bool.\nImport ListNotations.\n"
                 "From PP Require Import Model.C02.\n")
     n_cases = (300, 5000)
     design_ref = "DESIGN.md §5 C02, §6, §6.1, Appendix B (AdParser._evaluate_single, AdArray)"
@@ -608,8 +706,13 @@ class C02(Prop):
         "numbers, numpy arrays or scipy matrices on either side is such a tree "
         "(C02_overloads_build_parseable_trees); reverse-operation nodes are always rejected by the "
         "parser (C02_reverse_nodes_rejected), which refutes the refinement for the overloads before "
-        "the repair (C02_reverse_nodes_refuted, witness 2*x); previous-time/iterate leaves evaluate "
-        "to the stored values with zero derivative (C02_prev_no_derivative). PARTIAL: full totality "
+        "the repair (C02_reverse_nodes_refuted, witness 2*x); variables at a previous time step / "
+        "iterate evaluate to the values stored at that index taken at their dofs in the order of "
+        "their sub-variables, with zero derivative (C02_prev_no_derivative); previous_timestep / "
+        "previous_iteration of whole trees (transcription of _get_previous_time_or_iterate) compose "
+        "additively, also over leaves that are shifted already (C02_shift_composes), and a time shift "
+        "by s makes every previous-time leaf read exactly s stored steps further back "
+        "(C02_shift_time_semantics). PARTIAL: full totality "
         "(no ValueError on well-kinded, shape-consistent trees) and 'value without derivative = "
         "value with derivative' are not theorems; they are checked per generated case by the "
         "correspondence and by the oracle. The model is tied to the code on every run: expressions "
@@ -638,10 +741,21 @@ class C02(Prop):
             "DenseArrays, SparseArrays, Projections and ProjectionLists, combined with + - * / integer "
             "** and @ THROUGH THE REAL OVERLOADS, with plain numbers, numpy arrays and scipy matrices "
             "as left or right operands; rational (quarter-integer) states, non-zero denominators; plus "
-            "hand-built reverse-operation nodes (unknown-operation branch); evaluated by "
+            "hand-built reverse-operation nodes (unknown-operation branch); three equation systems "
+            "whose variables are created in different grid orders (md-grid order; fracture before "
+            "matrix with the interface variable interleaved; interface first), md-variables from "
+            "es.md_variable and from explicitly permuted sub-variable lists, atomic variables, at the "
+            "current state and at time-step / iterate indices 0..3 with DISTINCT stored values per dof "
+            "and per index; previous_timestep / previous_iteration applied to composite expressions "
+            "that already contain shifted leaves (nested twice, mixed with time-dependent arrays), "
+            "each such call checked against the model's shift_tree on the serialised operators; "
+            "KeyError beyond the stored indices and refused time/iterate mixes; evaluated by "
             "EquationSystem.evaluate with and without derivative; non-trivial = at least one operation")
-    trusted = ["the serialiser of the real Operator tree (operation, children, leaf data; stored values "
-               "of shifted leaves are read with pp.get_solution_values)",
+    trusted = ["the serialiser of the real Operator tree (operation, children, leaf data: dofs of a "
+               "variable = dofs_of of its sub-variables in their order, private time/iterate indices)",
+               "the oracle evaluates the generated SPEC (not the tree the implementation built) with "
+               "exact dual numbers; per-variable dof blocks are taken from dofs_of of the atomic "
+               "variables (C05's subject)",
                "comparison tolerance 1e-9*(1+|x|) between binary64 results and exact rationals on "
                "quarter-integer data of depth <= 4",
                "scipy/numpy arithmetic on plain operands modelled as exact linear algebra"]
@@ -650,16 +764,19 @@ class C02(Prop):
                    "exponents are integers given as numbers (array or AdArray exponents need "
                    "logarithms: outside the rational fragment)"]
 
-    _stats = {"kinds": {}, "census": {}, "direct_adarray_checked": 0, "results": {}}
+    _stats = {"kinds": {}, "census": {}, "direct_adarray_checked": 0, "results": {}, "envs": {},
+              "shift_calls_on_composites": 0, "permuted_md_leaves": 0}
 
     # ---------------------------------------------------------------------------------
     def generate(self, rng, n, tier):
         depth = 3 if tier == "quick" else 4
-        E = env()
+        N = env(0)["N"]
         for c in range(n):
-            st = gen_state(rng, E["N"])
+            st = gen_state(rng, N)
+            ev = rng.randrange(NENV)
+            base = {"state": st, "env": ev}
             r = rng.random()
-            if r < 0.04:
+            if r < 0.03:
                 # a reverse-operation node, as the overloads built them before the repair
                 op = rng.choice(["rmul", "rdiv", "rpow", "rmatmul"])
                 size = rng.choice([2, 4, 6])
@@ -667,9 +784,9 @@ class C02(Prop):
                         "b": {"k": "scalar", "v": gen_num(rng)}}
                 if rng.random() < 0.5:
                     expr = {"k": "bin", "op": "add", "a": expr, "b": gen_vec(rng, size, 1)}
-                yield {"kind": "legacy-reverse-node", "expr": fix_raw(expr), "state": st}
+                yield dict(base, kind="legacy-reverse-node", expr=fix_raw(expr))
                 continue
-            if r < 0.08:
+            if r < 0.06:
                 # a matrix-valued or scalar-valued expression
                 if rng.random() < 0.5:
                     expr = {"k": "bin", "op": "mul", "a": {"k": "num", "v": gen_num(rng)},
@@ -679,15 +796,73 @@ class C02(Prop):
                     expr = {"k": "bin", "op": rng.choice(["add", "mul", "sub", "div"]),
                             "a": {"k": "num", "v": gen_num(rng)}, "b": {"k": "scalar", "v": gen_num(rng)}}
                     kind = "scalar-valued"
-                yield {"kind": kind, "expr": expr, "state": st}
+                yield dict(base, kind=kind, expr=expr)
+                continue
+            if r < 0.18:
+                # md-variables whose sub-variable order differs from the global dof order,
+                # at the current state and at previous time steps / iterates
+                name = rng.choice(["x", "y"])
+                doms = rng.choice([["sd1", "sd0"], ["sd0", "sd1"], ["sd1", "sd0"]])
+                L = {"k": "var", "name": name, "doms": doms, "mode": rng.choice(["list", "list", "md"])}
+                key = rng.choice(["t", "i"])
+                a = dict(L, **{key: rng.randint(1, 3)})
+                b = dict(L) if rng.random() < 0.5 else dict(L, **{key: rng.randint(1, 3)})
+                expr = {"k": "bin", "op": rng.choice(["sub", "mul", "add", "div"]), "a": a, "b": b}
+                if rng.random() < 0.3:
+                    expr = {"k": "bin", "op": "matmul", "a": gen_proj(rng, 6, rng.choice([2, 4, 6])),
+                            "b": expr}
+                if rng.random() < 0.3 and key == "t":
+                    expr = {"k": "prev", "t": 1, "a": expr}
+                yield dict(base, kind="md-order", expr=expr, env=rng.choice([1, 2, ev]))
+                continue
+            if r < 0.34:
+                # previous_timestep / previous_iteration of a composite expression that already
+                # contains shifted leaves: (X - X.previous(k)).previous(s), possibly twice
+                size = rng.choice([2, 4, 6])
+                key = rng.choice(["t", "t", "i"])
+                X = gen_var(rng, size, "none", 0) if rng.random() < 0.75 or key == "i" \
+                    else gen_tdda(rng, size, "none", 0)
+                k1 = rng.randint(1, 2)
+                inner = {"k": "bin", "op": rng.choice(["sub", "sub", "mul", "add"]),
+                         "a": dict(X), "b": dict(X, **{key: k1})}
+                if rng.random() < 0.4:
+                    other = gen_vec(rng, size, 1, "time" if key == "t" else "iter", 1)
+                    inner = {"k": "bin", "op": rng.choice(["add", "mul", "sub"]), "a": inner, "b": other}
+                expr = {"k": "prev", key: 1, "a": inner}
+                if rng.random() < 0.35:
+                    expr = {"k": "prev", key: 1, "a": {"k": "bin", "op": "mul",
+                                                       "a": {"k": "num", "v": gen_num(rng)}, "b": expr}}
+                if rng.random() < 0.3:
+                    expr = {"k": "bin", "op": "sub", "a": gen_var(rng, size, "none", 0), "b": expr}
+                yield dict(base, kind="shift-of-composite", expr=fix_raw(expr))
+                continue
+            if r < 0.36:
+                # nothing stored that far back: KeyError
+                size = rng.choice([2, 4, 6])
+                X = gen_var(rng, size, "none", 0)
+                key = rng.choice(["t", "i"])
+                expr = {"k": "bin", "op": "add", "a": dict(X), "b": {"k": "prev", key: 3,
+                        "a": {"k": "bin", "op": "mul", "a": dict(X, **{key: 2}), "b": {"k": "scalar", "v": 2}}}}
+                yield dict(base, kind="key-error", expr=expr)
+                continue
+            if r < 0.38:
+                # a time shift of an expression holding a variable at a previous iterate (or the
+                # other way round) is refused by porepy
+                size = rng.choice([2, 4, 6])
+                X = gen_var(rng, size, "none", 0)
+                k1, k2 = rng.choice([("t", "i"), ("i", "t")])
+                expr = {"k": "prev", k1: 1, "a": {"k": "bin", "op": "add", "a": dict(X),
+                                                   "b": dict(X, **{k2: 1})}}
+                yield dict(base, kind="shift-conflict", expr=expr)
                 continue
             size = rng.choice([2, 4, 6, 6])
             expr = fix_raw(gen_vec(rng, size, rng.randint(1, depth)))
-            if is_raw(expr) or expr["k"] not in ("bin", "neg"):
+            if is_raw(expr) or expr["k"] not in ("bin", "neg", "prev"):
                 expr = {"k": "bin", "op": "mul", "a": {"k": "num", "v": 2}, "b": gen_leaf_vec(rng, size, False)}
             kind = ("ndarray-left" if has_ndarray_left(expr) else
-                    "raw-left" if has_raw_left(expr) else "wrapped")
-            yield {"kind": kind, "expr": expr, "state": st}
+                    "raw-left" if has_raw_left(expr) else
+                    "shifted-subtree" if has_prev(expr) else "wrapped")
+            yield dict(base, kind=kind, expr=expr)
 
     # ---------------------------------------------------------------------------------
     @staticmethod
@@ -698,6 +873,8 @@ class C02(Prop):
             return ["err", "Encountered unknown operation" in str(e)]
         except NotImplementedError:
             return ["notimpl"]
+        except KeyError:
+            return ["keyerr"]
         except ZeroDivisionError:
             return ["nonfinite"]
         vals = (np.concatenate([r.val, r.jac.toarray().ravel()]) if isinstance(r, pp.ad.AdArray)
@@ -716,12 +893,19 @@ class C02(Prop):
         raise TypeError(f"unexpected result type {type(r).__name__}")
 
     def run_impl(self, case):
-        E = env()
+        E = env(case.get("env", 0))
         b = Builder(case)
-        op = b.build(case["expr"])
+        st = self._stats
+        st["kinds"][case["kind"]] = st["kinds"].get(case["kind"], 0) + 1
+        try:
+            op = b.build(case["expr"])
+        except ValueError as e:
+            if "Cannot create an operator representing a previous" not in str(e):
+                raise
+            return {"built": False, "refused": True, "shifts": jsonable(b.shifts)}
         if not isinstance(op, pp.ad.Operator):
             # the python expression did not even produce an Operator (numpy broadcast over it)
-            return {"built": False, "type": type(op).__name__}
+            return {"built": False, "refused": False, "type": type(op).__name__}
         tree = ser(op, E)
         with_d = self.observe(E["es"], op, True)
         without_d = self.observe(E["es"], op, False)
@@ -729,18 +913,18 @@ class C02(Prop):
         state = np.array(case["state"]["it0"], dtype=float)
         direct = None
         try:
-            d = d_eval(tree, pp.ad.initAdArrays([state])[0])
+            d = d_eval(tree, pp.ad.initAdArrays([state])[0], case["state"])
             if isinstance(d, pp.ad.AdArray) and np.all(np.isfinite(d.val)) \
                     and np.all(np.isfinite(d.jac.toarray())):
                 direct = ["ad", [float(x) for x in d.val], [[float(x) for x in r] for r in d.jac.toarray()]]
-        except (ValueError, ZeroDivisionError):
+        except (ValueError, ZeroDivisionError, KeyError):
             direct = ["err"]
-        st = self._stats
-        st["kinds"][case["kind"]] = st["kinds"].get(case["kind"], 0) + 1
         tcensus(tree, st["census"])
         st["results"][with_d[0]] = st["results"].get(with_d[0], 0) + 1
+        st["envs"][case.get("env", 0)] = st["envs"].get(case.get("env", 0), 0) + 1
+        st["shift_calls_on_composites"] += len(b.shifts)
         return {"built": True, "tree": jsonable(tree), "with_d": with_d, "without_d": without_d,
-                "direct": direct}
+                "direct": direct, "shifts": jsonable(b.shifts)}
 
     @staticmethod
     def _tree_of(case, res):
@@ -748,25 +932,31 @@ class C02(Prop):
 
     # ---------------------------------------------------------------------------------
     def oracle(self, case, res):
+        if case["kind"] in ("legacy-reverse-node", "shift-conflict"):
+            return None     # tie only: hand-built nodes / shifts that porepy refuses by design
         if not res["built"]:
+            if res.get("refused"):
+                return ("previous_timestep / previous_iteration was refused for an expression "
+                        "whose shifts are all of one kind")
             return ("the expression with a numpy array as left operand did not build an Operator "
                     f"(got {res['type']})")
-        E = env()
+        E = env(case.get("env", 0))
         N = E["N"]
-        if case["kind"] == "legacy-reverse-node":
-            return None     # hand-built nodes (tie only): the overloads do not build them
-        tree = self._tree_of(case, res)
-        why = check_stored(tree, case["state"])
-        if why:
-            return why
-        state = [q(x) for x in case["state"]["it0"]]
+        b = Builder(case)
+        ctx = {"N": N, "state": case["state"], "blocks": E["blocks"], "sub_order": b.sub_order}
         wd, wo = res["with_d"], res["without_d"]
         try:
-            exp = o_eval(tree, state, N)
-        except Unsupported as e:
+            exp = s_eval(case["expr"], ctx)
+        except ExpectKeyError:
+            if wd[0] == "keyerr" and wo[0] == "keyerr":
+                return None
+            return "a leaf beyond the stored time steps / iterates did not raise KeyError"
+        except Unsupported:
             return None     # outside the oracle's fragment (not generated)
         except ZeroDivisionError:
             return None
+        if wd[0] == "keyerr" or wo[0] == "keyerr":
+            return "KeyError although every shifted leaf has stored values"
         if wd[0] == "nonfinite" or wo[0] == "nonfinite":
             return None     # a division by zero somewhere: outside the property (and the oracle)
         tol = lambda a, b: abs(a - float(b)) <= 1e-9 * (1 + abs(float(b)))
@@ -822,6 +1012,8 @@ class C02(Prop):
             return "ObsNotImpl"
         if o[0] == "nonfinite":
             return "ObsNonFinite"
+        if o[0] == "keyerr":
+            return "ObsKeyErr"
         if o[0] == "num":
             return f"(ObsNum {cqc(o[1])})"
         if o[0] == "vec":
@@ -830,20 +1022,39 @@ class C02(Prop):
             return f"(ObsMat {cmat(o[1])})"
         return f"(ObsAd {cvec(o[1])} {cmat(o[2])})"
 
+    @staticmethod
+    def cstores(st):
+        return ("{| st_ts := %s; st_its := %s; st_src_it0 := %s; st_src_ts := %s |}" % (
+            clist([st["ts%d" % k] for k in range(NTS)], cvec),
+            clist([st["it%d" % k] for k in range(NTS)], cvec),
+            cvec(st["src_it0"]), clist([st["src_ts%d" % k] for k in range(NTS)], cvec)))
+
+    @staticmethod
+    def cshifts(res):
+        out = []
+        for inner, ptime, steps, outer in unjson(res.get("shifts", [])):
+            o = "None" if outer is None else f"(Some {ctree(outer)})"
+            out.append(f"agree_shift {ctree(inner)} {cbool(ptime)} {cz(steps)} {o}")
+        return out
+
     def coq_case(self, case, res):
-        if not res["built"]:
+        terms = self.cshifts(res)
+        if res["built"]:
+            tree = self._tree_of(case, res)
+            st = cvec(case["state"]["it0"])
+            terms.append(f"agree {ctree(tree)} {st} {self.cstores(case['state'])} "
+                         f"{self.cobs(res['with_d'])} {self.cobs(res['without_d'])}")
+        if not terms:
             return None
-        tree = self._tree_of(case, res)
-        st = cvec(case["state"]["it0"])
-        return f"agree {ctree(tree)} {st} {self.cobs(res['with_d'])} {self.cobs(res['without_d'])}"
+        return "(" + " && ".join(terms) + ")%bool"
 
     def coq_diag(self, case, res):
         if not res["built"]:
             return None
         tree = self._tree_of(case, res)
         st = cvec(case["state"]["it0"])
-        return (f"(evaluate {ctree(tree)} {{| state := {st}; deriv := true |}}, "
-                f"direct {ctree(tree)} {{| state := {st}; deriv := true |}})")
+        e = f"(mkenv {st} {self.cstores(case['state'])} true)"
+        return f"(evaluate {ctree(tree)} {e}, direct {ctree(tree)} {e})"
 
     def nontrivial(self, case, res):
         return res["built"] and res["tree"][0] == "bin"
@@ -856,7 +1067,7 @@ class C02(Prop):
             e = cur["expr"]
             for f in ("a", "b"):
                 c = e.get(f)
-                if isinstance(c, dict) and c["k"] in ("bin", "neg", "rnode"):
+                if isinstance(c, dict) and c["k"] in ("bin", "neg", "rnode", "prev"):
                     cand = dict(cur, expr=c)
                     if still_fails(cand):
                         cur, changed = cand, True
